@@ -169,6 +169,7 @@ func loadProgram(repo string, overlay map[string][]byte) *Program {
 		fatalf("only %d module functions in SSA form", len(p.ModFuncs))
 	}
 	sort.Strings(p.AllowedErr)
+	theProg = p
 	return p
 }
 
